@@ -20,11 +20,16 @@ One *case* = one history (or one configuration):
                  step and action_space.sample: shapes and dtypes are state-independent in JAX, so
                  this decides the shape/dtype half of membership for ALL states and keys of that
                  configuration without compiling it.
-  kind "purity"  {env, cfg, stack, keys, depth}  "no Python-side state": the whole tree batch is
-                 run (A), then an unrelated environment is stepped and another instance of the
-                 same class is constructed and traced, all jit caches are dropped and a freshly
-                 constructed environment is run again (B, forces re-execution of the Python code),
-                 and once more in a freshly spawned process (C).  All outputs must be bitwise equal.
+  kind "purity"  {env, cfg, stack, keys, depth, max_rows, child}  "no Python-side state": the tree
+                 batch (a fixed stride of at most max_rows paths of it) is run (A), then an unrelated
+                 environment is stepped and another instance of the same class is constructed and
+                 traced, all jit caches are dropped and a freshly constructed environment is run
+                 again (B, forces re-execution of the Python code), and once more in a freshly
+                 spawned interpreter (C; child = false skips it, "overlap" lets it run alongside B).
+                 All outputs (observations, rewards, flags, sampled actions) must be bitwise equal.
+
+explore() hands everything to ctx.run_parallel as clause "mix" (dispatch on case["kind"]) so that
+all cases of one environment share one worker process and its compiled functions.
 
 Signatures: C02/<what>/<defect>/<Env>[/<stack>]; numbers only in messages.
 """
@@ -320,7 +325,6 @@ def encode_word(word: str, decl) -> list[int]:
 
 
 def alphabet(name: str) -> str:
-    mod, cls, _ = ENVS[name]
     if name in DISCRETE_ACTION:
         return {"CartPole": "01", "MountainCar": "012", "Acrobot": "012"}[name]
     return "lhzas"
@@ -426,6 +430,8 @@ def judge_batch(what, name, cfg, stack, env, o0, outs, idx_of_row, descr_of_row,
         fails.append((idx_of_row(row), sig, f"{name} cfg={cfg_tag(cfg)} stack={stack_tag(stack)} {descr_of_row(row)}: {msg}"))
 
     def members(arr, decl, lead, label, show):
+        # sampling is the action space's business: its signature does not multiply over wrapper stacks
+        tag = f"{name}/{stack_tag(stack)}" if label != "sample" else name
         structural, per = judge_members(arr, decl, lead)
         if structural is not None:
             add(0, f"{P}/{label}/{structural.split(' ')[0]}/{tag}", f"{label}: {structural}")
@@ -638,7 +644,7 @@ def clause_typing(cases, ctx: Ctx):
         for label, st, decl in (("reset-obs", obs0, odecl), ("obs", obs, odecl), ("sample", smp, adecl)):
             defect = judge_struct(st, decl)
             if defect is not None:
-                out.append((i, f"{P}/{label}/{defect.split(' ')[0]}/{tag}", f"{pre}: {label} {defect}"))
+                out.append((i, f"{P}/{label}/{defect.split(' ')[0]}/{tag if label != 'sample' else name}", f"{pre}: {label} {defect}"))
         for label, st, want in (("reward", rew, "float"), ("terminal", term, "bool"), ("truncate", trunc, "bool")):
             defect = scalar_kind_defect(st.shape, st.dtype, want)
             if defect is not None:
@@ -916,11 +922,18 @@ def explore(ctx: Ctx):
     ctx.notes["keys"] = [int(k) for k in K]
 
     # run_parallel starts groups in order of decreasing case count; the three G1 tasks have the fewest
-    # cases and the longest compiles, so in the quick tier each rides with one classic environment (most
-    # cases, started first) - scheduling only, the cases themselves are independent
+    # cases and the longest compiles, so each (thorough: its bare default configuration) rides with one
+    # classic environment (most cases, started first) - scheduling only, the cases themselves are independent
     ride = {"G1Locomotion": "CartPole", "G1Standing": "MountainCar", "G1Standup": "Acrobot"}
     if thorough:
-        gk = lambda c: (c["env"], json.dumps(c["cfg"], sort_keys=True), json.dumps(c["stack"])) if FAMILY[c["env"]] != "classic" else (c["env"],)  # noqa: E731
+
+        def gk(c):
+            if FAMILY[c["env"]] == "classic":
+                return (c["env"],)
+            if c["env"] in ride and not c["cfg"] and not c["stack"]:
+                return (ride[c["env"]],)
+            return (c["env"], json.dumps(c["cfg"], sort_keys=True), json.dumps(c["stack"]))
+
     else:
         gk = lambda c: ride.get(c["env"], c["env"])  # noqa: E731
     ctx.run_parallel("mix", cases, workers=6, group_key=gk, threads=2)
